@@ -55,6 +55,14 @@ type verifRT struct {
 	faults    int
 	chunked   bool // requests may arrive without a declared length
 	reliable  bool // no faults
+	// boundary mode: the size limits configured on the two ends sit exactly delta bytes away from the
+	// request / reply being carried (set just before each is handed over, when its size is known)
+	client      *HTTPService
+	boundary    bool
+	reqDelta    int64
+	replyDelta  int64
+	reqTooBig   bool
+	replyTooBig bool
 }
 
 func (t *verifRT) RoundTrip(req *http.Request) (*http.Response, error) {
@@ -72,8 +80,21 @@ func (t *verifRT) RoundTrip(req *http.Request) (*http.Response, error) {
 	if t.chunked && verifapi.Bool(fmt.Sprint("chunked", t.attempts)) {
 		sreq.ContentLength = -1 // the body arrives with chunked transfer encoding: its length is not declared
 	}
+	if t.boundary {
+		t.reqDelta = int64(verifapi.Choose(fmt.Sprint("request-limit-delta", t.attempts), 3)) - 1
+		t.server.MaxContentLength = req.ContentLength + t.reqDelta
+		t.reqTooBig = t.reqDelta < 0
+		if t.server.MaxContentLength <= 0 {
+			t.server.MaxContentLength, t.reqTooBig = 1, true // (a limit of 0 means "none")
+		}
+	}
 	t.server.ServeHTTP(rec, sreq.WithContext(req.Context()))
 	t.delivered++
+	if t.boundary {
+		t.replyDelta = int64(verifapi.Choose(fmt.Sprint("reply-limit-delta", t.attempts), 3)) - 1
+		t.client.MaxContentLength = int64(len(rec.body)) + t.replyDelta
+		t.replyTooBig = t.replyDelta < 0
+	}
 	if k == 2 {
 		t.faults++
 		return nil, errors.New("verif: connection reset before the reply arrived")
@@ -212,4 +233,34 @@ func VerifC17HTTPConcurrent() {
 		}
 		verifapi.Assert(cnt >= 1, "c17.http-message-intact")
 	}
+}
+
+// VerifC17HTTPBoundary: size limits exactly at, one below and one above the
+// size of the message being carried, on either end, with the length declared
+// or not (chunked): a message within the limit is delivered intact - and
+// handled exactly once - however it is framed; only a message larger than the
+// limit is refused, and then nothing of it is handled.
+func VerifC17HTTPBoundary() {
+	svc := &VerifHTTPSvc{}
+	srv := &HTTPServer{}
+	if err := srv.Server.Register("", svc); err != nil {
+		verifapi.Unreachable("c17.http-register")
+	}
+	rt := &verifRT{server: srv, reliable: true, boundary: true, chunked: true}
+	client := &HTTPService{Endpoint: "http://pool.invalid/", HTTPClient: http.Client{Transport: rt}}
+	rt.client = client
+	tok := verifapi.Int64("token")
+	var got int64
+	err := client.Call(context.Background(), &got, "echo", tok)
+	verifapi.Reach("c17.http.boundary")
+	if rt.reqTooBig {
+		verifapi.Assert(len(svc.seen) == 0 && err != nil, "c17.http-oversized-request-is-refused-unhandled")
+		return
+	}
+	verifapi.Assert(len(svc.seen) == 1 && svc.seen[0] == tok, "c17.http-request-within-limit-is-delivered-intact")
+	if rt.replyTooBig {
+		verifapi.Assert(err != nil, "c17.http-oversized-reply-is-refused")
+		return
+	}
+	verifapi.Assert(err == nil && got == tok, "c17.http-reply-within-limit-is-delivered-intact")
 }
